@@ -8,7 +8,7 @@
   value-semantics model: it is decided on the implementation by the harness (mutate one, read the others).
 -/
 import Psa.Proofs.Registry
-import Psa.Tie.Facts
+import Psa.Tie.Facts.State
 namespace Psa.Props.C16
 open Psa Psa.Model Psa.Model.Reg Psa.Proofs.Reg
 
